@@ -44,9 +44,10 @@ def gen_model(rng, kind, rows, cols):
         opt = rng.choice(["uniform", "uniform", "rectangular", "elliptic"])
         args = {"level": rng.randrange(1, 400) / 4.0, "option": opt, "time_scale": ts}
         if opt != "uniform":
-            args["object_size"] = [rng.randrange(1, rows + 1), rng.randrange(1, cols + 1)]
-            args["object_center"] = [rng.randrange(0, rows), rng.randrange(0, cols)]
-        return {"kind": kind, "args": args, "dyadic": True}
+            args["object_size"] = [rng.randrange(1, rows + 2), rng.randrange(1, cols + 2)]
+            # centres near the lower / left border make the object cross it
+            args["object_center"] = [rng.choice([0, 0, 1, rng.randrange(0, rows)]), rng.choice([0, 1, rng.randrange(0, cols)])]
+        return {"kind": kind, "args": args, "dyadic": True, "seq_as": rng.choice(["list", "list", "tuple"])}
     if kind == "load_image":
         r2, c2 = rng.choice([(rows, cols), (rows, cols), (rows + 2, cols + 1), (max(1, rows - 1), cols)])
         img = [[float(rng.randrange(0, 500)) for _ in range(c2)] for _ in range(r2)]
@@ -114,6 +115,15 @@ def gen_case(rng, time_mode=None):
             parts.append(gen_partition(rng, start8, end8, rng.randrange(2, 13)))
         if rng.random() < 0.5:
             parts.append(gen_partition(rng, start8, end8, 12))
+        # equally spaced readouts whose FIRST interval differs from the spacing: times = start + f, + d, + d, …
+        length8 = end8 - start8
+        for _ in range(2):
+            n = rng.randrange(3, 9)
+            d = rng.randrange(1, max(2, length8 // (n - 1)))
+            f = length8 - d * (n - 1)
+            pts = [start8 + f + d * k for k in range(n)]
+            if f >= 1 and f != d and all(p != 0 for p in pts):
+                parts.insert(rng.randrange(1, len(parts) + 1), [p / 8.0 for p in pts])
         start, parts = start8 * u, [[p * 8.0 * u for p in part] for part in parts]
         parts[0] = [end8 * u]
     else:
@@ -136,6 +146,11 @@ def gen_case(rng, time_mode=None):
                 if all(b - a >= 0.01 * length for a, b in zip(allp, allp[1:])) and all(p != 0.0 for p in pts):
                     break
             parts.append(pts + [end])
+        for _ in range(2):  # equally spaced (linspace) readouts after a first interval of another length
+            n, frac1 = rng.randrange(3, 9), rng.choice([0.05, 0.37, 0.5, 0.81])
+            first = start + frac1 * length
+            pts = [first + (end - first) * k / (n - 1) for k in range(n - 1)] + [end]
+            parts.insert(rng.randrange(1, len(parts) + 1), pts)
         parts = [p for p in parts if all(b > a for a, b in zip([start] + p, p)) and all(t != 0.0 for t in p)]
     if tm != "grid8" and rng.random() < 0.5:
         # fast readouts are used with a time scale of 1 ms / 1 µs
@@ -161,7 +176,9 @@ def frac(x):
     return [f.numerator, f.denominator]
 
 
-def real_args(args, tmpdir, tag):
+def real_args(args, tmpdir, tag, seq_as="tuple"):
+    """arguments as handed to the model function; sequence arguments as a tuple (Python construction) or as a LIST
+    (what a YAML configuration produces — the list object stored in the pipeline is the one every call receives)"""
     import numpy as np
 
     out = {}
@@ -171,7 +188,7 @@ def real_args(args, tmpdir, tag):
             np.save(path, np.array(v["npy"], dtype=float))
             out[k] = path
         elif k in ("object_size", "object_center", "position"):
-            out[k] = tuple(v)
+            out[k] = list(v) if seq_as == "list" else tuple(v)
         else:
             out[k] = v
     return out
@@ -196,7 +213,7 @@ def call_model(case, m, tmpdir, tag, dt, scale):
     det.empty()
     det.readout_properties.time_step = dt
     det.readout_properties.time = abs(dt) + 1.0
-    args = real_args(m["args"], tmpdir, tag)
+    args = real_args(m["args"], tmpdir, tag, m.get("seq_as", "tuple"))
     if "time_scale" in args:
         args["time_scale"] = scale
     func = evaluate_reference({**PHOTON_FUNCS, **CHARGE_FUNCS}[m["kind"]])
@@ -209,7 +226,7 @@ def call_model(case, m, tmpdir, tag, dt, scale):
 def groups_of(case, tmpdir):
     g = {"photon_collection": [], "charge_generation": [], "charge_collection": []}
     for i, m in enumerate(case["photon"]):
-        g["photon_collection"].append({"name": f"ph{i}", "func": PHOTON_FUNCS[m["kind"]], "arguments": real_args(m["args"], tmpdir, f"ph{i}")})
+        g["photon_collection"].append({"name": f"ph{i}", "func": PHOTON_FUNCS[m["kind"]], "arguments": real_args(m["args"], tmpdir, f"ph{i}", m.get("seq_as", "tuple"))})
     if case["qe"]:
         a = {"binomial_sampling": False}
         if case["qe"]["via"] == "argument":
@@ -222,7 +239,7 @@ def groups_of(case, tmpdir):
     return {k: v for k, v in g.items() if v}
 
 
-def run_exposure(case, tmpdir, times, start, nd, det=None):
+def run_exposure(case, tmpdir, times, start, nd, det=None, pipe=None):
     """pixel slices [[value per pixel] per readout] of the result of the real exposure (on a fresh detector, or on
     the detector object handed in, which may already have run other exposures)"""
     import numpy as np
@@ -233,7 +250,7 @@ def run_exposure(case, tmpdir, times, start, nd, det=None):
     det = det or make_det(case)
 
     res = pyxel.run_mode(mode=pyx.make_exposure(times=list(times), start_time=start, non_destructive=nd),
-                         detector=det, pipeline=pyx.make_pipeline(groups_of(case, tmpdir)))
+                         detector=det, pipeline=pipe or pyx.make_pipeline(groups_of(case, tmpdir)))
     arr = np.asarray(res["pixel"].to_numpy(), dtype=float)
     return [[float(v) for v in arr[i].ravel()] for i in range(arr.shape[0])]
 
@@ -268,9 +285,12 @@ def run_impl(case):
         out["nd_scaled"] = run_exposure(case, tmpdir, t2, st2, True)
         # (c) the same runs once more, one after the other ON ONE detector object, in the case's random order (a user
         # looping over schedules with the detector of the configuration): reused[k] belongs to run order[k]
+        import pyx
+
         det = make_det(case)
+        pipe = pyx.make_pipeline(groups_of(case, tmpdir))  # ONE pipeline object too: its argument objects live across the runs
         runs = runs_of(case)
-        out["reused"] = [run_exposure(case, tmpdir, runs[k][2], runs[k][1], runs[k][0], det) for k in case.get("reuse_order", [])]
+        out["reused"] = [run_exposure(case, tmpdir, runs[k][2], runs[k][1], runs[k][0], det, pipe) for k in case.get("reuse_order", [])]
         return out
     except Exception as e:  # noqa: BLE001
         return {"error": common.err_kind(e), "msg": str(e)[:300]}
@@ -440,8 +460,10 @@ def body(ck: common.Check):
                "2x2..6x8, CCD/CMOS; one interval [start, end] split into 1..12 readouts (4-5 partitions per case) on an exact grid "
                "(1/8 s, or 2^-10…2^-23 s: intervals that are no multiples of 1 µs) or at arbitrary doubles (thirds / sevenths / "
                "n-ths of the exposure, random split points; exposures of 10 s … 3 µs, time scales 1 ms / 1 µs), non-destructive and "
-               "destructive, plus the schedule scaled by c (2, 0.5, 3, 4, 1.5, 2^-10, 2^-20, 1e-3, 1e-6, 1e3); every run on a fresh "
-               "detector AND all runs of the case once more in random order on one detector object; every model function also called alone "
+               "destructive, plus the schedule scaled by c (2, 0.5, 3, 4, 1.5, 2^-10, 2^-20, 1e-3, 1e-6, 1e3); every case also has equally "
+               "spaced partitions whose first interval differs from the spacing; sequence arguments passed as lists (YAML) or tuples; "
+               "every run on a fresh detector AND all runs of the case once more in random order on one detector object with one "
+               "pipeline object; every model function also called alone "
                "at three (Δt, time_scale) points; non-trivial = finest partition has ≥ 2 readouts")
     ck.assumptions = [
         "'does not change' (DESIGN 6b): equal as exact rationals when every model has dyadic rates; otherwise within 1e-12 relative",
